@@ -573,7 +573,7 @@ static void DecodeGen(Word Index) {
         return;
     }
 
-    for (ActArgCnt = 0; ActArgCnt <= ArgCnt; ActArgCnt++) {
+    for (ActArgCnt = 0; (ActArgCnt <= ArgCnt) && (ActArgCnt < 4); ActArgCnt++) {
         pArg[ActArgCnt] = &ArgStr[ActArgCnt];
     }
     ActArgCnt = ArgCnt;
